@@ -107,7 +107,7 @@ func (c *Collection) Tables() []*Table {
 							pct := ((new.Mean / old.Mean) - 1.0) * 100.0
 							row.PctDelta = pct
 							row.Delta = fmt.Sprintf("%+.2f%%", pct)
-							if pct < 0 == (table.Metric != "speed") { // smaller is better, except speeds
+							if new.Mean < old.Mean == (table.Metric != "speed") { // smaller is better, except speeds
 								row.Change = +1
 							} else {
 								row.Change = -1
